@@ -1574,7 +1574,7 @@ def rule_replay_false_asked(db: ProgramDB) -> List[Instance]:
                 if operand is not None:
                     for ec in own_calls(m):
                         if call_attr(ec) in ("_evaluate__", "_evaluate_") and unparse(ec.func.value) == operand:
-                            kw = next((k.value for k in ec.keywords if k.arg == "yield_when_false"), None)
+                            kw = bind_args(fn_params(se.methods["_evaluate__"]), ec).get("yield_when_false")
                             want = unparse(kw) if kw is not None else "False"
                 else:
                     want = "yield_when_false" if "yield_when_false" in m.params else None
